@@ -17,8 +17,8 @@ def lastwins(kind, key, val):
         "isfresh(result)",
         # every statement accounted for
         f"forall(lambda j: implies(0 <= j < len({S}), dhas(result, {K('j')})))",
-        # nothing invented
-        f"forallv(lambda k: implies(dhas(result, k), exists(lambda j: 0 <= j < len({S}) and {K('j')} == k)))",
+        # nothing invented: every entry is (name, value) of some statement
+        f"forallv(lambda k: implies(dhas(result, k), exists(lambda j: 0 <= j < len({S}) and {K('j')} == k and dget(result, k) == {V('j')})))",
         # the last declaration of a name gives its value
         f"forall(lambda j: implies(0 <= j < len({S}) and forall(lambda l: implies(j < l < len({S}), {K('l')} != {K('j')})),"
         f"                         dget(result, {K('j')}) == {V('j')}))",
